@@ -462,6 +462,12 @@ func c13Case(c *fw.Ctx, r *rng.R, tree *spec.Spec) {
 					dspec = spec.ListV(spec.IntV(7), spec.ObjV("k", spec.NilV()))
 					d = NewDDList(7, at.NewObject("k", nil))
 				}
+				if r.Chance(1, 3) {
+					// registered by value, with a slice among its fields: it cannot be compared or hashed, but it is a list
+					sr := SliceRow{List: at.NewList(7, at.NewObject("k", nil)), cells: []string{"c"}}
+					sr.Init(sr)
+					d = sr
+				}
 				if r.Bool() {
 					// handed over by one of the values it embeds (`parent.Set("k", d.Object)`): what is stored is then not the
 					// registered pointer, Get resolves it, and the one-level snapshots hold what Get returns
@@ -1062,6 +1068,18 @@ func c13EmbeddedHolder(r *rng.R) (any, string) {
 		holder = at.NewObject("a", d1.List, "b", 1.5, "c", d2.DObject.Object, "d", d2.DObject, "e", NewDDList(7), "f", d3.DDList.DList, "g", late, "h", lateL)
 		what = "object {a: d1.List (embedded in a DList), b: 1.5, c: d2.DObject.Object, d: d2.DObject (embedded in a DDObject), e: a DDList, f: d3.DDList.DList (embedded in a DDDList), g / h: an object and a list wrapped into derived structures after they were stored}"
 	}
+	// ... and derived structures registered by value whose struct cannot be compared or hashed
+	sr := SliceRow{List: at.NewList("row", 1), cells: []string{"c"}}
+	sr.Init(sr)
+	mr := MapRec{Object: at.NewObject("rec", 1), attrs: map[string]int{"a": 1}}
+	mr.Init(mr)
+	switch h := holder.(type) {
+	case at.List:
+		h.Add(sr, mr, sr.List)
+	case at.Object:
+		h.Set("sr", sr, "mr", mr, "mri", mr.Object)
+	}
+	what += " plus a SliceRow and a MapRec (registered by value, not comparable) and their embedded containers"
 	wl := &DObject{Object: late, tag: "late"}
 	late.Init(wl)
 	wll := &DList{List: lateL, tag: "late"}
